@@ -129,3 +129,11 @@ package cmap
 //@   loop 0
 //@     invariant len(candidates) == 5 && candidates[0].PlatformID == 3 && candidates[0].EncodingID == 10 && candidates[1].PlatformID == 0 && candidates[1].EncodingID == 4 && candidates[2].PlatformID == 3 && candidates[2].EncodingID == 1 && candidates[3].PlatformID == 0 && candidates[3].EncodingID == 3 && candidates[4].PlatformID == 1 && candidates[4].EncodingID == 0
 //@     invariant (iter >= 1 ==> !okk(ss, 3, 10)) && (iter >= 2 ==> !okk(ss, 0, 4)) && (iter >= 3 ==> !okk(ss, 3, 1)) && (iter >= 4 ==> !okk(ss, 0, 3)) && (iter >= 5 ==> !okk(ss, 1, 0))
+
+// decodeFormat6 (trimmed table mapping): total on arbitrary bytes; the glyph
+// array is only read inside the length announced by the header.
+//@ func decodeFormat6(data []byte, code2rune func(c int) rune) (sub Subtable, err error)   props: C02 C09
+//@   ensures err == nil ==> sub != nil
+//@   loop 0
+//@     invariant 0 <= i && i <= count && len(data) == 2*count && res != nil && code2rune != nil
+//@     decreases count - i
